@@ -318,7 +318,10 @@ def r4(ctx, facts, model):
         ctx.ob("C02-R4", "%s returns the handles it killed" % b.path, okp, b.loc(), "" if okp else why)
 
 
-def callee_set(facts, b, depth=2, _seen=None):
+ALPHABET = ("world::entity::Generation::", "world::entity::ZeroableGeneration::", "world::entity::Allocator::generation")
+
+
+def callee_set(facts, b, depth=3, _seen=None):
     """set of callee paths of a body including its closures and (bounded) crate-local callees"""
     _seen = _seen or set()
     out = set()
@@ -332,6 +335,11 @@ def callee_set(facts, b, depth=2, _seen=None):
             continue
         # a crate-local callee that resolves to one body is looked through (one sibling delegating to the other, or both to a shared
         # helper that is `pub(crate)` and therefore not inlined by the expansion layer, must compare equal)
+        if p.startswith(ALPHABET):
+            # the generation primitives are what the siblings are compared BY: always named, never looked through (looking through them
+            # up to a depth bound made the comparison depend on how deep below the sibling the call sits)
+            out.add(p)
+            continue
         tgs = facts.targets(c) if c.get("crate") == "specs" and not (c.get("trait") and not c.get("resolved")) else []
         if len(tgs) == 1 and tgs[0].kind != "Closure" and depth > 0 and tgs[0].path not in _seen:
             out |= callee_set(facts, tgs[0], depth - 1, _seen)
@@ -381,7 +389,7 @@ def r5(ctx, facts, model):
            "" if ok else "callee sets differ between %s" % {k: sorted(v) for k, v in sets.items()})
     aa = [b for b in model.bodies if model.calls_on_field(b, ("raised",), {"add_atomic"}, "AtomicBitSet")]
     def gen_part(cs):
-        return {p for p in cs if p.startswith(("world::entity::Generation::", "world::entity::ZeroableGeneration::", "world::entity::Allocator::generation"))}
+        return {p for p in cs if p.startswith(ALPHABET)}
     for b in aa:
         s = essence(callee_set(facts, b))
         ok2 = bool(vals) and vals[0] <= s and gen_part(vals[0]) == gen_part(s)
